@@ -681,6 +681,16 @@ func (s *SSEServer) handleRequestMessage(ctx context.Context, rawMessage json.Ra
 	var request JSONRPCRequest
 	if err := json.Unmarshal(rawMessage, &request); err != nil {
 		s.logger.Errorf("Error parsing request: %v", err)
+		// The request was accepted (202) and carries an id: its sender must get an answer.
+		var base baseMessage
+		_ = json.Unmarshal(rawMessage, &base)
+		errorResp := newJSONRPCErrorResponse(base.ID, ErrCodeInvalidRequest, "Invalid request: "+err.Error(), nil)
+		if data, mErr := json.Marshal(errorResp); mErr == nil {
+			select {
+			case session.eventQueue <- formatSSEEvent("message", data):
+			case <-session.done:
+			}
+		}
 		return
 	}
 
